@@ -8,6 +8,9 @@ import Rl.Lemmas.EditorFrame
 namespace Rl
 variable (S : Segmenter) (U : UData) (cfg : EdCfg)
 
+theorem wp_lowerMark {mark : Nat} {Q : Nat → Ed → Prop} {E : Outcome → Ed → Prop} {s : Ed} :
+    wp (lowerMark mark) Q E s = Q (min mark s.changes.undos.length) s := rfl
+
 /-- circular completion: an aborted loop (result `none`) leaves exactly the backed-up text and cursor -/
 theorem completeCircular_abort (start : Nat) (cands : List Text) (mark : Nat) (backup : Text) (backupPos : Nat)
     (hbp : backupPos ≤ blen backup) :
@@ -16,7 +19,7 @@ theorem completeCircular_abort (start : Nat) (cands : List Text) (mark : Nat) (b
         (fun r s' => r = none → s'.line.buf = backup ∧ s'.line.pos = backupPos ∧ s'.line.canGrow = true)
         (fun _ _ => True) s := by
   intro fuel
-  induction fuel with
+  induction fuel generalizing mark with
   | zero => intro i s _; unfold completeCircular; exact trivial
   | succ fuel ih =>
     intro i s hg
@@ -51,13 +54,14 @@ theorem completeCircular_abort (start : Nat) (cands : List Text) (mark : Nat) (b
       refine wp_refreshLine S U cfg (fun s2 hc2 => ?_) (fun _ _ _ => trivial)
       obtain ⟨l2, _⟩ := Ed.core_eq hc2
       refine wp_nextCmd S U cfg (fun cmd s3 hc3 => ?_) (fun _ _ _ => trivial)
+      rw [wp_lowerMark]
       obtain ⟨l3, _⟩ := Ed.coreNC_eq hc3
       have hg3 : s3.line.canGrow = true := by rw [l3, l2]; exact hg1
       have hi3 : cands.length ≤ i → s3.line.buf = backup ∧ s3.line.pos = backupPos := by
         rw [l3, l2]; exact hi1
       split
-      · exact ih _ s3 hg3
-      · exact ih _ s3 hg3
+      · exact ih _ _ s3 hg3
+      · exact ih _ _ s3 hg3
       · by_cases hlt' : i < cands.length
         · rw [if_pos hlt']
           simp only [wp_bind]
@@ -81,7 +85,7 @@ theorem searchLoop_abort (mark : Nat) (backup : Text) (backupPos : Nat) (hbp : b
         (fun r s' => r = none → s'.line.buf = backup ∧ s'.line.pos = backupPos ∧ s'.line.canGrow = true)
         (fun _ _ => True) s := by
   intro fuel
-  induction fuel with
+  induction fuel generalizing mark with
   | zero => intro sb hi d succ s _; unfold searchLoop; exact trivial
   | succ fuel ih =>
     intro sb hi d succ s hg
@@ -90,9 +94,10 @@ theorem searchLoop_abort (mark : Nat) (backup : Text) (backupPos : Nat) (hbp : b
     refine wp_refreshPromptAndLine S U cfg (fun s2 hc2 => ?_) (fun _ _ _ => trivial)
     obtain ⟨l2, _⟩ := Ed.core_eq hc2
     refine wp_nextCmd S U cfg (fun cmd s3 hc3 => ?_) (fun _ _ _ => trivial)
+    rw [wp_lowerMark]
     obtain ⟨l3, _⟩ := Ed.coreNC_eq hc3
     have hg3 : s3.line.canGrow = true := by rw [l3, l2]; exact hg
-    have hds : ∀ (sb : Text) (hi : Nat) (d : Dir),
+    have hds : ∀ (mark : Nat) (sb : Text) (hi : Nat) (d : Dir),
         wp (match (memHist cfg).search sb hi d with
             | some (idx, entry, pos) => do
               lb S U (LB.update S U entry pos)
@@ -100,23 +105,23 @@ theorem searchLoop_abort (mark : Nat) (backup : Text) (backupPos : Nat) (hbp : b
             | none => searchLoop S U cfg mark backup backupPos fuel sb hi d false)
           (fun r s' => r = none → s'.line.buf = backup ∧ s'.line.pos = backupPos ∧ s'.line.canGrow = true)
           (fun _ _ => True) s3 := by
-      intro sb hi d
+      intro mark sb hi d
       cases (memHist cfg).search sb hi d with
-      | none => exact ih _ _ _ _ s3 hg3
+      | none => exact ih _ _ _ _ _ s3 hg3
       | some r =>
         obtain ⟨idx, entry, pos⟩ := r
         simp only [wp_bind]
         refine wp_lb_any S U (fun a l ns h => ?_) trivial
-        exact ih _ _ _ _ _ (LB.update_keeps_canGrow S U h hg3)
+        exact ih _ _ _ _ _ _ (LB.update_keeps_canGrow S U h hg3)
     split
-    · exact hds _ _ _
-    · exact ih _ _ _ _ s3 hg3
+    · exact hds _ _ _ _
+    · exact ih _ _ _ _ _ s3 hg3
     · split
-      · exact hds _ _ _
-      · exact ih _ _ _ _ s3 hg3
+      · exact hds _ _ _ _
+      · exact ih _ _ _ _ _ s3 hg3
     · split
-      · exact hds _ _ _
-      · exact ih _ _ _ _ s3 hg3
+      · exact hds _ _ _ _
+      · exact ih _ _ _ _ _ s3 hg3
     · simp only [wp_bind]
       refine wp_lb_update S U hg3 hbp ?_
       refine wp_refreshLine S U cfg (fun s4 hc4 => ?_) (fun _ _ _ => trivial)
